@@ -12,7 +12,7 @@ from .. import kernel, seams
 from ..world_files import drivers, des, run
 
 PROP = "c18"
-BIN = ("rwms", "ms", "gfms", "ms5")
+BIN = ("rwms", "ms", "gfms", "ms5", "pbp")
 
 
 def gen_plan(rng, tier):
@@ -421,7 +421,8 @@ def execute(plan, ctx):
         return LiveFile(f, idx)
 
     import pyerrors.input.openQCD as oq
-    out = run.call_reader(kind, p, d, call, ctx, extra_patches=[(oq, "open", sim_open)])
+    import pyerrors.input.misc as im
+    out = run.call_reader(kind, p, d, call, ctx, extra_patches=[(oq, "open", sim_open), (im, "open", sim_open)])
     ctx.sim_time = sim.now
     ctx.compared += 1
     if out[0] == "raise":
